@@ -337,11 +337,23 @@ Definition beq_ping (a b : ping_out) : bool :=
 Inductive unreach_case :=
 | CSend (w : list node) (P : list name) (mh hops : N) (p : pkt) (f : fate) (obs : outcome)
 | CDial (w : list node) (P : list name) (mh : N) (p : pkt) (f : fate) (obs : dial_out)
-| CPing (w : list node) (P : list name) (mh hops : N) (a e target : name) (obs : ping_out).
+| CPing (w : list node) (P : list name) (mh hops : N) (a e target : name) (obs : ping_out)
+(* monitorUnreachable of connections that share one socket (all connections accepted by one
+   listener): a notification really delivered on that socket, the connections as packets
+   (socket's node, socket's service, remote node, remote service), and which of them were
+   cancelled by it *)
+| CMonitor (r : name * name * notif) (conns : list pkt) (obs : list bool).
 
 Definition unreach_check (c : unreach_case) : bool :=
   match c with
   | CSend w P mh hops p f obs => beq_outcome (send w (line_route P) mh hops p f) obs
   | CDial w P mh p f obs => beq_dial (dial w (line_route P) mh p f) obs
   | CPing w P mh hops a e t obs => beq_ping (ping w (line_route P) mh hops a e t) obs
+  | CMonitor r conns obs =>
+    (fix eqb (a b : list bool) : bool :=
+       match a, b with
+       | [], [] => true
+       | x :: a', y :: b' => Bool.eqb x y && eqb a' b'
+       | _, _ => false
+       end) (map (fun p => monitor_match p r) conns) obs
   end.
